@@ -747,7 +747,8 @@ SPEC = Spec(
         "through the memoised self.rec (raw == on such a component only for the "
         "reviewed size-parameter-only shapes). R13-STATE: caches are instance "
         "state: no mutable default argument, no class- or module-level container "
-        "that a mapper mutates (canary fixture)."),
+        "that a mapper mutates (canary fixture). "
+        "R13-CHILDREN-OVR also: an element of a child field is passed on unmapped only under the test that it is not an Array. R13-ONCE also: a visit key is looked up in and added to the same table, arrays and function definitions have separate tables."),
     not_decided=(
         "Visit counts and object identity on concrete exponential-path graphs "
         "(they follow from R13-ONCE but are not measured); 'never creates more "
